@@ -82,9 +82,22 @@ func H_C14_release() {
 	cc := NewClientConn(flaky, "cli", "srv")
 	bidi := &grpc.StreamDesc{ClientStreams: true, ServerStreams: true}
 	base := 0
+	idleLevel := -1
 	done := false
 	ready := make(chan struct{})
 	go func() {
+		// warm-up: one complete unary call, after which only the connection-level goroutines
+		// (read loops, writer, workers - however many the implementation uses) are alive: that
+		// is the idle level the census must return to
+		{
+			saved := herr
+			herr = nil
+			out := new(testproto.Msg)
+			werr := cc.Invoke(context.Background(), "/"+zzSvcName+"/Unary", &testproto.Msg{Value: 1}, out)
+			vfAssert(werr == nil, "warm-up-call-succeeds")
+			herr = saved
+			idleLevel = vfCensus()
+		}
 		if pre == 1 {
 			_, err := cc.NewStream(context.Background(), bidi, "/"+zzSvcName+"/ServerStream")
 			vfAssert(err == nil, "pre-existing-stream-opens")
@@ -155,9 +168,9 @@ func H_C14_release() {
 			return
 		}
 		vfAssert(vfFieldLen(h, "streams") == base, "server-registry-back-to-its-previous-size")
-		// goroutines: connection-level ones (mux read loop, server writer + 8 workers) plus, with
-		// a pre-existing stream, its client read loop and its server handler
-		vfAssert(vfCensus() == 10+2*base, "goroutines-back-to-the-idle-level")
+		// goroutines: the idle level measured after the warm-up call plus, with a pre-existing
+		// stream, its client read loop and its server handler
+		vfAssert(vfCensus() == idleLevel+2*base, "goroutines-back-to-the-idle-level")
 		vfReach("checked")
 	})
 	_ = ready
